@@ -117,6 +117,69 @@ open TongoGen.TlbTypes in
 theorem impl_eq_spec_SignedMsgBody : implementsSpec env desc_wallet_SignedMsgBody Spec.SignedMsgBody = true := by
   decide +kernel
 
+
+/-! accounts and transactions -/
+open TongoGen.TlbTypes in
+theorem impl_eq_spec_StorageUsed : implementsSpec env desc_tlb_StorageUsed Spec.StorageUsed = true := by
+  decide +kernel
+open TongoGen.TlbTypes in
+theorem impl_eq_spec_StorageExtraInfo : implementsSpec env desc_tlb_StorageExtraInfo Spec.StorageExtraInfo = true := by
+  decide +kernel
+open TongoGen.TlbTypes in
+theorem impl_eq_spec_StorageInfo : implementsSpec env desc_tlb_StorageInfo Spec.StorageInfo = true := by
+  decide +kernel
+open TongoGen.TlbTypes in
+theorem impl_eq_spec_AccountState : implementsSpec env desc_tlb_AccountState Spec.AccountState = true := by
+  decide +kernel
+open TongoGen.TlbTypes in
+theorem impl_eq_spec_AccountStorage : implementsSpec env desc_tlb_AccountStorage Spec.AccountStorage = true := by
+  decide +kernel
+open TongoGen.TlbTypes in
+theorem impl_eq_spec_ExistedAccount : implementsSpec env desc_tlb_ExistedAccount Spec.ExistedAccount = true := by
+  decide +kernel
+open TongoGen.TlbTypes in
+theorem impl_eq_spec_Account : implementsSpec env desc_tlb_Account Spec.Account = true := by
+  decide +kernel
+open TongoGen.TlbTypes in
+theorem impl_eq_spec_ShardAccount : implementsSpec env desc_tlb_ShardAccount Spec.ShardAccount = true := by
+  decide +kernel
+open TongoGen.TlbTypes in
+theorem impl_eq_spec_AccountStatus : implementsSpec env desc_tlb_AccountStatus Spec.AccountStatus = true := by
+  decide +kernel
+open TongoGen.TlbTypes in
+theorem impl_eq_spec_AccStatusChange : implementsSpec env desc_tlb_AccStatusChange Spec.AccStatusChange = true := by
+  decide +kernel
+open TongoGen.TlbTypes in
+theorem impl_eq_spec_ComputeSkipReason : implementsSpec env desc_tlb_ComputeSkipReason Spec.ComputeSkipReason = true := by
+  decide +kernel
+open TongoGen.TlbTypes in
+theorem impl_eq_spec_TrStoragePhase : implementsSpec env desc_tlb_TrStoragePhase Spec.TrStoragePhase = true := by
+  decide +kernel
+open TongoGen.TlbTypes in
+theorem impl_eq_spec_TrCreditPhase : implementsSpec env desc_tlb_TrCreditPhase Spec.TrCreditPhase = true := by
+  decide +kernel
+open TongoGen.TlbTypes in
+theorem impl_eq_spec_TrComputePhase : implementsSpec env desc_tlb_TrComputePhase Spec.TrComputePhase = true := by
+  decide +kernel
+open TongoGen.TlbTypes in
+theorem impl_eq_spec_TrActionPhase : implementsSpec env desc_tlb_TrActionPhase Spec.TrActionPhase = true := by
+  decide +kernel
+open TongoGen.TlbTypes in
+theorem impl_eq_spec_TrBouncePhase : implementsSpec env desc_tlb_TrBouncePhase Spec.TrBouncePhase = true := by
+  decide +kernel
+open TongoGen.TlbTypes in
+theorem impl_eq_spec_SplitMergeInfo : implementsSpec env desc_tlb_SplitMergeInfo Spec.SplitMergeInfo = true := by
+  decide +kernel
+open TongoGen.TlbTypes in
+theorem impl_eq_spec_TransactionDescr : implementsSpec env desc_tlb_TransactionDescr Spec.TransactionDescr = true := by
+  decide +kernel
+open TongoGen.TlbTypes in
+theorem impl_eq_spec_HashUpdate : implementsSpec env desc_tlb_HashUpdate Spec.HashUpdate = true := by
+  decide +kernel
+open TongoGen.TlbTypes in
+theorem impl_eq_spec_Transaction : implementsSpec env desc_tlb_Transaction Spec.Transaction = true := by
+  decide +kernel
+
 /-- **impl_eq_spec_hashmapE**: a Go `HashmapE[K, V]` against `HashmapE n X` of the schema. The matcher asks for the
 key width `n`, a key descriptor that implements the schema's key type and a value descriptor that implements `X`;
 then every in-domain dictionary (empty or not) is written as `hme_empty$0` / `hme_root$1 root:^(Hashmap n X)` where the
